@@ -419,7 +419,7 @@ pub fn run(run: &Run) {
     let workers = run.workers();
     prop_search(
         run,
-        Search { check: "codec-hook", cases: run.tier.pick(60_000, 2_000_000), workers, max_shrink_iters: 2000 },
+        Search { check: "codec-hook", cases: run.tier.pick(200_000, 3_000_000), workers, max_shrink_iters: 2000 },
         || (prop_oneof![0u64..64, 64u64..16384, 16384u64..(1 << 30), (1u64 << 30)..(1u64 << 60)].prop_map(|q| q * 4), proptest::collection::vec(any::<u8>(), 0..2000)),
         |(s, p)| match vcore::catch(|| test_hook(*s, p)) {
             Ok(Ok(())) => Outcome::pass(*s >= 256),
@@ -455,7 +455,7 @@ pub fn run(run: &Run) {
     run.section_exhaustive("small-l-table", true, "L in 0..=20 x sender role x {wt, raw} receiver, probes at 0, 1, max-1, max, max+1, max+2");
     prop_search(
         run,
-        Search { check: "datagrams", cases: run.tier.pick(300, 5000), workers: 8, max_shrink_iters: 60 },
+        Search { check: "datagrams", cases: run.tier.pick(600, 6000), workers: 8, max_shrink_iters: 60 },
         case_strategy,
         |c| judge(|| exec(c), false, "C03:hang"),
         |c| serde_json::to_value(c).unwrap(),
